@@ -21,7 +21,7 @@ RULE = ('case = (JSON-like tree with placeholder strings at random depths, globa
         'non-trivial = tree holds >=1 string with a defined placeholder at depth >=1; distinct = hash(tree, vars)')
 REQUIRED = ['trees', 'strings_substituted', 'strings_undefined_only', 'nonstring_leaves_checked', 'second_application',
             'copies_checked', 'config_cases', 'uses_path_substituted', 'object_args_substituted', 'context_values_substituted',
-            'config_object_uses_checked', 'context_reuse_configs', 'path_parameters_checked', 'context_uses_paths_with_placeholder', 'typed_parameters_checked', 'gv_style_property', 'gv_style_inherited', 'gv_style_module']
+            'config_object_uses_checked', 'context_reuse_configs', 'path_parameters_checked', 'context_uses_paths_with_placeholder', 'typed_parameters_checked', 'file_reuse_configs', 'gv_style_property', 'gv_style_inherited', 'gv_style_module']
 ASSUMPTIONS = ['strings where a `{` occurs inside an open brace pair ({{A}}, {a{B}}) are ambiguous: only idempotence, type and '
                'non-interference are checked there',
                'mapping keys, tuples/sets, dunder attribute names and replacement values containing braces are outside the checked text oracle']
@@ -40,7 +40,7 @@ class GV:
             setattr(self, k, v)
 
 
-GV_STYLES = ['dict', 'ordered_dict', 'instance', 'class_attrs', 'inherited', 'property', 'namespace', 'module', 'mixed', 'slots']
+GV_STYLES = ['dict', 'ordered_dict', 'instance', 'class_attrs', 'inherited', 'property', 'namespace', 'module', 'mixed', 'slots', 'defaultdict', 'fallback_dict']
 
 
 def make_gv(vars_, style):
@@ -53,6 +53,14 @@ def make_gv(vars_, style):
         return GV(vars_)
     if style == 'ordered_dict':
         return collections.OrderedDict(vars_)
+    if style == 'defaultdict':
+        # a mapping with a fallback for unknown keys: `name in mapping` still says which names are DEFINED
+        return collections.defaultdict(str, vars_)
+    if style == 'fallback_dict':
+        class Fallback(dict):
+            def __missing__(self, key):
+                return None
+        return Fallback(vars_)
     if style == 'class_attrs':
         return type('GVClass', (), dict(vars_))()
     if style == 'inherited':
@@ -176,6 +184,8 @@ def check_tree(tree, vars_, as_object, res: CaseResult, rng):
         return
     if not isinstance(tree, str) and out is not work:
         res.violate('search_and_replace_placeholders did not return the traversed object', witness=wit)
+    if isinstance(gv, dict) and dict(gv) != dict(vars_):
+        res.violate(f'the global_vars mapping was modified by the substitution: {dict(gv)!r} (was {dict(vars_)!r})', witness=wit)
     res.count('trees')
     nontriv = False
     # structure + leaves
@@ -505,6 +515,41 @@ def check_context_reuse_case(rng, res: CaseResult):
         shutil.rmtree(tmp, ignore_errors=True)
 
 
+def check_file_reuse_case(rng, res: CaseResult):
+    """the SAME config file (unchanged on disk) loaded several times in one process with different global_vars: every Config gets its own substitution"""
+    import yaml
+    from taskchain import Config
+    tmp = Path(tempfile.mkdtemp(prefix='c11f-'))
+    try:
+        body = {'tasks': [], 'flat': 'f-{A}', 'nested': {'deep': ['{A}/x', {'k': 'pre-{B}-{U}', 'l': [['{A}{A}']]}], 'n': 1}, 'lst': ['{B}', ['{A}']]}
+        multi = rng.random() < 0.5
+        data = {'configs': {'p1': dict(body, main_part=True), 'p2': dict(copy.deepcopy(body), flat='g-{B}')}} if multi else body
+        fmt = rng.choice(['json', 'yaml'])
+        fp = tmp / f'conf.{fmt}'
+        fp.write_text(json.dumps(data) if fmt == 'json' else yaml.safe_dump(data))
+        wit = {'file': data, 'format': fmt}
+        cfgs = []
+        for i, vars_ in enumerate([{'A': 'alpha', 'B': 'b1'}, {'A': '/mnt/beta', 'B': 'b2', 'U': 'now-defined'}, {'A': 'alpha', 'B': 'b3'}][:rng.choice([2, 3])]):
+            part = rng.choice(['p1', 'p2']) if multi else None
+            try:
+                cfg = Config(tmp / 'd', str(fp) + (f'#{part}' if part and rng.random() < 0.5 else ''), global_vars=make_gv(vars_, rng.choice(GV_STYLES)),
+                             **({'part': part} if part and False else {}))
+            except Exception as e:
+                res.violate(f'loading the config file a further time failed: {type(e).__name__}: {e}', witness=wit)
+                return
+            cfgs.append((cfg, vars_))
+            res.count('file_reuse_configs')
+            for c_, v_ in cfgs:
+                got = json.loads(json.dumps({k: c_[k] for k in ('nested', 'lst')}))
+                exp = {k: json.loads(ref_sub(json.dumps(body[k]), v_)) for k in ('nested', 'lst')}
+                if got != exp:
+                    res.violate(f'config #{cfgs.index((c_, v_))} of the same file (global_vars {v_}) holds {got!r} after {len(cfgs)} loads, expected {exp!r}', witness=wit)
+                    return
+        res.nt(jhash(['filereuse', wit, len(cfgs)]))
+    finally:
+        shutil.rmtree(tmp, ignore_errors=True)
+
+
 def short_diff(a, b):
     return f'{json.dumps(a)[:200]} -> {json.dumps(b)[:200]}'
 
@@ -528,6 +573,7 @@ def run_case(case) -> CaseResult:
         for i in range(case['n']):
             check_config_case(rng, res)
             check_context_reuse_case(rng, res)
+            check_file_reuse_case(rng, res)
         res.sample = {'kind': 'config', 'n': case['n']}
     return res
 
